@@ -69,6 +69,9 @@ public:
    */
 
   void fireParameterChanged(const ParameterList& parameters) override;
+
+private:
+  void computeEquilibriumFrequencies_();
 };
 } // end of namespace bpp
 #endif // BPP_NUMERIC_HMM_AUTOCORRELATIONTRANSITIONMATRIX_H
